@@ -10,7 +10,10 @@ for every non-ACK SETTINGS frame; `ForeachSetting` stops at the first error:
   `cc.maxFrameSize = val`;
 * SETTINGS_INITIAL_WINDOW_SIZE (4): above `2^31-1` → FLOW_CONTROL_ERROR;
 * SETTINGS_MAX_CONCURRENT_STREAMS (3), SETTINGS_MAX_HEADER_LIST_SIZE (6): any value is stored;
-* every other identifier (0, 1, 2, 8, unknown) is ignored.
+* SETTINGS_HEADER_TABLE_SIZE (1, since /repo dc5e1a5): any value is handed to the HPACK encoder
+  (`SetMaxDynamicTableSize`; it changes how the next block is encoded, not whether — the lane
+  measures the block the peer receives);
+* every other identifier (0, 2, 8, unknown) is ignored.
 
 `cc.maxFrameSize` is the chunk size of `ClientConn.writeHeaders` (`for len(hdrs) > 0 { chunk :=
 hdrs[:max] … }`, model `H2.Frame.chunks` / `fragments`) and of the request-body writer: a value of 0
